@@ -12,7 +12,7 @@ def setA (d : DState) (k : String) (a : Acct) : DState :=
 
 def showL (l : List Tx) : String := " ".intercalate ((sortByNonce l).map fun t => s!"{t.nonce}:{t.id}")
 
-def showA (a : Acct) : String := s!"p[{showL a.pending}] q[{showL a.queue}]"
+def showA (a : Acct) : String := s!"held[{showL (a.pending ++ a.queue)}] p={a.pending.length}"
 
 def resStr : AddResult → String
   | .ok => "ok" | .replaced => "replaced" | .known => "known" | .nonceTooLow => "nonce-too-low"
